@@ -90,7 +90,7 @@ class Robot:
             raise GwlError(f"replay makes {rack.name}[{i}] negative")
         return fr, known
 
-    def put(self, rack, i, v, fr, known):
+    def put(self, rack, i, v, fr, known, check=True):
         rack.vol[i] += v
         rack.touch[i] += 1
         if fr is None:
@@ -100,7 +100,7 @@ class Robot:
                 rack.amt[i][k] = rack.amt[i].get(k, 0) + f * v
             if not known and v > 0:
                 rack.known[i] = False
-        if v > 0:
+        if v > 0 and check:
             self._limits(rack, i, False)
 
     def execute(self, record: str):
